@@ -14,6 +14,7 @@ from fractions import Fraction as F
 
 sys.path.insert(0, os.path.dirname(os.path.abspath(__file__)))
 from lib import Check, REPO, guarded, zlit, blit, listlit, qlit   # noqa: E402
+import gen_geom   # noqa: E402  (tools/: translator tie for find_line_intersection / _point_in_polygon / contains_coordinate)
 
 logging.disable(logging.CRITICAL)
 from geostructures import GeoPolygon, GeoBox, Coordinate           # noqa: E402  (the implementation)
@@ -200,6 +201,8 @@ HOLE_HOSTS = ['square', 'square+collinear', 'hexagon', 'diamond']
 def main():
     ck = Check('C01')
     ck.build_theories(['theories/Props/C01.vo', 'theories/Corr/GeomK.vo'])
+    rep = gen_geom.main(REPO, os.path.join(ck.rundir, 'GeomGen.v'))   # the planar core regenerated from the source ...
+    ck.gen('GeomGen.v', rep, 'GeomGenEq.v')                           # ... proved equal to GeomM.fli / pip / poly_contains / box_contains
     ck.props('Props/C01.v')
     rng = ck.rng
     thorough = ck.tier == 'thorough'
